@@ -234,6 +234,9 @@ func toStr(v any) (string, error) {
 	return "", fmt.Errorf("not a string: %T", v)
 }
 
+// ToBool is the bool schema's conversion.
+func ToBool(v any) (bool, error) { return toBool(v) }
+
 func toBool(v any) (bool, error) {
 	switch x := v.(type) {
 	case bool:
@@ -773,8 +776,8 @@ func (f *Facts) naturalPlugin(s *ir.Step, sf *StepFacts) {
 			sf.Why = "enabled: " + r.Why
 			return
 		}
-		b, ok := r.V.(bool)
-		if !ok {
+		b, err := toBool(r.V)
+		if err != nil {
 			f.fail(s.ID + ".enabled: not a bool")
 			return
 		}
